@@ -148,6 +148,14 @@ End GenericLevels.
 
 (* ==================================================================================================== *)
 (* B. CGR containers *)
+(* the two hashes of the CGR model are CPython's tuple hash (Model.PyHash) of the tuples the code builds *)
+Theorem cbond_int_pyhash b : cbond_int b = py_hash (PTuple [PInt (or0 (cb_ord b)); PInt (or0 (cb_pord b))]).
+Proof. unfold cbond_int. rewrite tuple_hash_lanes_fast_eq. cbn [py_hash map]. reflexivity. Qed.
+Theorem cgr_atom_identifier_pyhash a :
+  cgr_atom_identifier a = py_hash (PTuple [PInt (or0 (ca_iso a)); PInt (ca_num a); PInt (ca_chg a); PInt (ca_pchg a);
+                                           PBool (ca_rad a); PBool (ca_prad a)]).
+Proof. unfold cgr_atom_identifier. rewrite tuple_hash_lanes_fast_eq. cbn [py_hash map]. reflexivity. Qed.
+
 Lemma cgr_skeleton_rename s c : cgr_skeleton (rename_cgr s c) = rename_mol s (cgr_skeleton c).
 Proof.
   unfold cgr_skeleton, rename_cgr, rename_mol. cbn [c_atoms c_adj m_atoms m_adj]. rewrite !map_map. f_equal.
